@@ -61,3 +61,52 @@ def java_hex(b):
         b = bytes(inv)
     h = b.hex().lstrip('0') or '0'
     return ('-' if neg else '') + h
+
+
+# ---- other valid DER encodings of the same public key (a server is free to
+# send any of them; the session hash is over the bytes actually sent)
+
+def _der_len(n):
+    if n < 0x80:
+        return bytes([n])
+    b = n.to_bytes((n.bit_length() + 7) // 8, 'big')
+    return bytes([0x80 | len(b)]) + b
+
+
+def _der_tlv(tag, content):
+    return bytes([tag]) + _der_len(len(content)) + content
+
+
+def _der_read(data, pos):
+    """-> (tag, content, next position)"""
+    tag = data[pos]
+    ln = data[pos + 1]
+    pos += 2
+    if ln & 0x80:
+        k = ln & 0x7F
+        ln = int.from_bytes(data[pos:pos + k], 'big')
+        pos += k
+    return tag, data[pos:pos + ln], pos + ln
+
+
+def key_encodings(bits):
+    """{'spki': the fixture (Java style), 'pkcs1': bare RSAPublicKey,
+    'spki_no_null': SubjectPublicKeyInfo whose AlgorithmIdentifier omits the
+    NULL parameters, 'spki_long_len': same key with a non-minimal length
+    octet in the outer SEQUENCE (BER, not DER)}"""
+    spki = key(bits)['der']
+    tag, outer, _ = _der_read(spki, 0)
+    assert tag == 0x30
+    t1, alg, p = _der_read(outer, 0)
+    t2, bitstr, _ = _der_read(outer, p)
+    assert t1 == 0x30 and t2 == 0x03 and bitstr[0] == 0
+    pkcs1 = bytes(bitstr[1:])
+    t3, oid, _ = _der_read(alg, 0)
+    assert t3 == 0x06
+    no_null = _der_tlv(0x30, _der_tlv(0x30, _der_tlv(0x06, oid)) +
+                       _der_tlv(0x03, bitstr))
+    n = len(outer)
+    lb = n.to_bytes(4, 'big')
+    long_len = bytes([0x30, 0x84]) + lb + outer
+    return {'spki': spki, 'pkcs1': pkcs1, 'spki_no_null': no_null,
+            'spki_long_len': long_len}
